@@ -73,7 +73,12 @@ impl ArrayBinaryBits for Array<u8> {
                     .collect::<Self>();
                 let count = count.unwrap_or(self.len()?.to_isize() * 8);
                 if count >= 0 { result.slice(0..count.to_usize()) }
-                else { result.slice(0..self.len()? - count.to_usize()) }
+                else {
+                    // a negative count trims that many bits off the end
+                    let total = self.len()? * 8;
+                    if count.unsigned_abs() > total { return Err(ArrayError::OutOfBounds { value: "count" }) }
+                    result.slice(0..total - count.unsigned_abs())
+                }
             },
             Some(axis) => {
                 let axis = self.normalize_axis(axis);
